@@ -158,19 +158,7 @@ theorem wf_of_sublist (t : PTier Int) (hwf : t.WF) (ps : List (Pt Int)) (hs : ps
 
 /-- whichever entry the tolerant `Point.__eq__` selects, what `deleteEntry` leaves is a sub-list -/
 theorem deletePt_sublist (ps : List (Pt Int)) (x : Pt Int) (ps' : List (Pt Int))
-    (h : deletePt ps x = .ok ps') : ps'.Sublist ps := by
-  induction ps generalizing ps' with
-  | nil => simp [deletePt] at h
-  | cons e rest ih =>
-    simp only [deletePt] at h
-    split at h
-    · simp only [Except.ok.injEq] at h; subst h; exact List.sublist_cons_self _ _
-    · cases hr : deletePt rest x with
-      | error err => simp [hr, Except.map] at h
-      | ok r =>
-        simp only [hr, Except.map, Except.ok.injEq] at h
-        subst h
-        exact (ih r hr).cons_cons e
+    (h : deletePt ps x = .ok ps') : ps'.Sublist ps := deletePt_sublist' ps x ps' h
 
 theorem foldlM_deletePt_sublist (ms : List (Pt Int)) (ps ps' : List (Pt Int))
     (h : ms.foldlM deletePt ps = .ok ps') : ps'.Sublist ps := by
@@ -433,9 +421,9 @@ theorem preachable_validate (t : PTier Int) (hwf : t.WF) (ops : List POp) : (pru
 
 /-! ## the other half: an operation that does not return a tier raises a praatio error
 
-… with two exceptions, both built-in `ValueError`s of `list.index` inside `deleteEntry`: deleting an entry that is not
-in the tier (known finding A13c), and `eraseRegion` over three or more equal-labelled points chained within the
-tolerance of `Point.__eq__` (`perase_valueerror_counterexample`; excluded by `PNoClose`). -/
+… with one exception, the built-in `ValueError` of `list.index` inside `deleteEntry` when the entry is not in the tier
+(known finding A13c).  `eraseRegion` over equal-labelled points chained within the tolerance of `Point.__eq__` used to be
+a second one (`perase_chain_regression`); `deleteEntry` now finds the exact entry first. -/
 
 /-- no two distinct entries are equal under `Point.__eq__` -/
 def PNoClose (ps : List (Pt Int)) : Prop := ∀ a ∈ ps, ∀ b ∈ ps, ptEq a b = true → a = b
@@ -443,31 +431,20 @@ def PNoClose (ps : List (Pt Int)) : Prop := ∀ a ∈ ps, ∀ b ∈ ps, ptEq a b
 theorem ptEq_self (a : Pt Int) : ptEq a a = true := by
   simp [ptEq, Tm.close9a]
 
-theorem deletePt_ok_of_mem (ps : List (Pt Int)) (x : Pt Int) (hx : x ∈ ps) : ∃ ps', deletePt ps x = .ok ps' := by
-  induction ps with
-  | nil => simp at hx
-  | cons e rest ih =>
-    simp only [deletePt]
-    by_cases he : ptEq e x = true
-    · exact ⟨rest, by simp [he]⟩
-    · have hx' : x ∈ rest := by
-        rcases List.mem_cons.1 hx with h | h
-        · subst h; exact absurd (ptEq_self x) he
-        · exact h
-      obtain ⟨r, hr⟩ := ih hx'
-      exact ⟨e :: r, by simp [he, hr, Except.map]⟩
+theorem deletePt_ok_of_mem (ps : List (Pt Int)) (x : Pt Int) (hx : x ∈ ps) : ∃ ps', deletePt ps x = .ok ps' :=
+  ⟨ps.erase x, deletePt_of_mem ps x hx⟩
 
 /-- `list.index` fails only with `ValueError`, and only when no entry is `==` to the argument -/
-theorem deletePt_err (ps : List (Pt Int)) (x : Pt Int) (e : Err) (h : deletePt ps x = .error e) :
+theorem deletePtTol_err (ps : List (Pt Int)) (x : Pt Int) (e : Err) (h : deletePtTol ps x = .error e) :
     e = .ValueError ∧ ∀ p ∈ ps, ptEq p x = false := by
   induction ps with
-  | nil => simp only [deletePt, Except.error.injEq] at h; exact ⟨h.symm, by simp⟩
+  | nil => simp only [deletePtTol, Except.error.injEq] at h; exact ⟨h.symm, by simp⟩
   | cons q rest ih =>
-    simp only [deletePt] at h
+    simp only [deletePtTol] at h
     by_cases hq : ptEq q x = true
     · simp [hq] at h
     · simp only [hq, Bool.false_eq_true, if_false] at h
-      cases hr : deletePt rest x with
+      cases hr : deletePtTol rest x with
       | ok r => simp [hr, Except.map] at h
       | error e' =>
         simp only [hr, Except.map, Except.error.injEq] at h
@@ -479,30 +456,15 @@ theorem deletePt_err (ps : List (Pt Int)) (x : Pt Int) (e : Err) (h : deletePt p
         · simpa using hq
         · exact h2 p hp'
 
-theorem deletePt_of_mem (ps : List (Pt Int)) (x : Pt Int) (hn : PNoClose ps) (hx : x ∈ ps) :
-    deletePt ps x = .ok (ps.erase x) := by
-  induction ps with
-  | nil => simp at hx
-  | cons e rest ih =>
-    simp only [deletePt]
-    by_cases he : ptEq e x = true
-    · have : e = x := hn e (by simp) x hx he
-      subst this
-      simp [he]
-    · have hne : e ≠ x := by intro h; subst h; exact he (ptEq_self e)
-      have hx' : x ∈ rest := by
-        rcases List.mem_cons.1 hx with h | h
-        · exact absurd h.symm hne
-        · exact h
-      have hn' : PNoClose rest :=
-        fun a ha b hb hab => hn a (List.mem_cons_of_mem _ ha) b (List.mem_cons_of_mem _ hb) hab
-      simp only [he, Bool.false_eq_true, if_false, ih hn' hx']
-      simp only [Except.map]
-      rw [List.erase_cons_tail]
-      simpa using hne
+theorem deletePt_err (ps : List (Pt Int)) (x : Pt Int) (e : Err) (h : deletePt ps x = .error e) :
+    e = .ValueError ∧ ∀ p ∈ ps, ptEq p x = false := by
+  simp only [deletePt] at h
+  split at h
+  · simp at h
+  · exact deletePtTol_err ps x e h
 
 /-- deleting a sub-multiset of the entries one after the other always finds its entry -/
-theorem foldlM_deletePt_ok (ms ps : List (Pt Int)) (hn : PNoClose ps) (hms : ∀ x, ms.count x ≤ ps.count x) :
+theorem foldlM_deletePt_ok (ms ps : List (Pt Int)) (hms : ∀ x, ms.count x ≤ ps.count x) :
     ∃ ps', ms.foldlM deletePt ps = .ok ps' := by
   induction ms generalizing ps with
   | nil => exact ⟨ps, rfl⟩
@@ -511,9 +473,8 @@ theorem foldlM_deletePt_ok (ms ps : List (Pt Int)) (hn : PNoClose ps) (hms : ∀
       have := hms m
       simp only [List.count_cons_self] at this
       exact List.count_pos_iff.1 (by omega)
-    simp only [List.foldlM_cons, bind, Except.bind, deletePt_of_mem ps m hn hm]
+    simp only [List.foldlM_cons, bind, Except.bind, deletePt_of_mem ps m hm]
     apply ih (ps.erase m)
-    · exact fun a ha b hb hab => hn a (List.mem_of_mem_erase ha) b (List.mem_of_mem_erase hb) hab
     · intro x
       have := hms x
       rw [List.count_erase]
@@ -614,8 +575,9 @@ theorem pdelete_err (t : PTier Int) (x : Pt Int) (e : Err) (h : t.deleteEntry x 
     subst h
     exact deletePt_err t.ps x e' hd
 
-/-- `eraseRegion` on a well-formed tier whose entries are separated refuses only an empty or reversed region -/
-theorem perase_err (t : PTier Int) (hwf : t.WF) (a b : Int) (hn : a < b → PNoClose t.ps) (sh : Bool) (e : Err)
+/-- `eraseRegion` on a well-formed tier refuses only an empty or reversed region (the entries it deletes are taken from the
+tier itself, and `deleteEntry` finds the exact entry first — no separation hypothesis since the repair in /repo) -/
+theorem perase_err (t : PTier Int) (hwf : t.WF) (a b : Int) (sh : Bool) (e : Err)
     (h : t.eraseRegion a b sh = .error e) : e = .ArgumentError ∧ b ≤ a := by
   by_cases hab : a < b
   · exfalso
@@ -625,7 +587,7 @@ theorem perase_err (t : PTier Int) (hwf : t.WF) (a b : Int) (hn : a < b → PNoC
       rw [hps]
       simp only [Bool.false_eq_true, if_false, List.map_id', List.count_reverse]
       exact List.filter_sublist.count_le x
-    obtain ⟨ps0, hd⟩ := foldlM_deletePt_ok _ _ (hn hab) hsub
+    obtain ⟨ps0, hd⟩ := foldlM_deletePt_ok _ _ hsub
     unfold PTier.eraseRegion at h
     rw [pnew_of_wf t hwf] at h
     simp only [bind, Except.bind] at h
@@ -640,20 +602,18 @@ theorem perase_err (t : PTier Int) (hwf : t.WF) (a b : Int) (hn : a < b → PNoC
     simp only [Except.error.injEq] at h
     exact ⟨h.symm, by omega⟩
 
-/-- side condition of the error clause: separation, for the one operation that deletes several entries by tolerant
-equality -/
-def PErrOk (t : PTier Int) : POp → Prop
-  | .erase a b _ => a < b → PNoClose t.ps
+/-- side condition of the error clause: none (kept so that the statement has the shape of the interval version) -/
+def PErrOk (_t : PTier Int) : POp → Prop
   | _ => True
 
 /-- **an operation that cannot return a tier raises a praatio error** — except `deleteEntry` of an entry that no
 entry of the tier is `==` to, which raises the built-in ValueError (known finding A13c) -/
-theorem pstep_err (t : PTier Int) (hwf : t.WF) (op : POp) (hop : PErrOk t op) (e : Err)
+theorem pstep_err (t : PTier Int) (hwf : t.WF) (op : POp) (_hop : PErrOk t op) (e : Err)
     (h : pstepT t op = .error e) :
     e.isPraatio = true ∨ (∃ x, op = .delete x ∧ e = .ValueError ∧ ∀ p ∈ t.ps, ptEq p x = false) := by
   cases op with
   | crop a b r => left; rw [(pcrop_err t a b r e h).1]; rfl
-  | erase a b sh => left; rw [(perase_err t hwf a b hop sh e h).1]; rfl
+  | erase a b sh => left; rw [(perase_err t hwf a b sh e h).1]; rfl
   | space s d => obtain ⟨t', ht'⟩ := pspace_ok t s d; simp only [pstepT] at h; rw [ht'] at h; cases h
   | shift o rep => left; rw [(pshift_err t o rep e h).1]; rfl
   | insert x m => left; rw [(pinsert_err t x m e h).1]; rfl
@@ -664,8 +624,9 @@ theorem pstep_err (t : PTier Int) (hwf : t.WF) (op : POp) (hop : PErrOk t op) (e
   | new name ps lo hi =>
     obtain ⟨t', ht'⟩ := pnew_ok t name ps lo hi; simp only [pstepT] at h; rw [ht'] at h; cases h
 
-/-! ## the excluded case, concretely (replayed on the code: `PointTier('P', [(1.0,'x'), (1.0+0.9e-9,'x'),
-(1.0+1.8e-9,'x')], 0, 2).eraseRegion(0.5, 1.5)` raises `ValueError: Point(time=1.0, label='x') is not in list`) -/
+/-! ## the formerly excluded case (replayed on the code: `PointTier('P', [(1.0,'x'), (1.0+0.9e-9,'x'),
+(1.0+1.8e-9,'x')], 0, 2).eraseRegion(0.5, 1.5)` raised `ValueError: Point(time=1.0, label='x') is not in list`
+before the repair of `deleteEntry`; it returns the empty tier now) -/
 
 /-- three equal-labelled points; neighbours are within the relative tolerance 1e-9 of `Point.__eq__`, the outer two are
 not -/
@@ -675,25 +636,17 @@ def cexChain : PTier Int :=
 theorem cexChain_wf : cexChain.WF := by
   refine ⟨?_, ?_, ?_, ?_, ?_⟩ <;> simp [cexChain, Pt.le] <;> decide
 
-/-- **counter-example to the error clause without separation**: on a well-formed tier `eraseRegion` (either
-`doShrink`) raises the built-in ValueError — the reversed deletion loop removes, by tolerant `list.index`, the middle
-point for the last one and the first for the middle one, and then finds nothing `==` to the first -/
-theorem perase_valueerror_counterexample (sh : Bool) :
-    cexChain.WF ∧ ¬ PNoClose cexChain.ps ∧
-    cexChain.eraseRegion 1 19999999999 sh = .error .ValueError ∧ Err.ValueError.isPraatio = false := by
-  refine ⟨cexChain_wf, ?_, ?_, rfl⟩
+/-- the tier is NOT separated, and `eraseRegion` still does not refuse (regression of the repaired defect) -/
+theorem perase_chain_regression (sh : Bool) :
+    cexChain.WF ∧ ¬ PNoClose cexChain.ps ∧ ∃ t', cexChain.eraseRegion 1 19999999999 sh = .ok t' := by
+  refine ⟨cexChain_wf, ?_, ?_⟩
   · intro hn
     have := hn ⟨10000000000, "x"⟩ (by simp [cexChain]) ⟨10000000010, "x"⟩ (by simp [cexChain])
       (by simp [ptEq, Tm.close9a])
     simp at this
-  · obtain ⟨ct, hc, _, _, hps, _, _⟩ := C06.pcrop_spec cexChain cexChain_wf 1 19999999999 (by decide) false
-    have hps' : ct.ps = cexChain.ps := by rw [hps]; simp [cexChain]
-    unfold PTier.eraseRegion
-    rw [pnew_of_wf cexChain cexChain_wf]
-    simp only [bind, Except.bind]
-    rw [hc]
-    simp only [hps']
-    simp [cexChain, deletePt, ptEq, Tm.close9a, Except.map, bind, Except.bind]
+  · cases h : cexChain.eraseRegion 1 19999999999 sh with
+    | ok t' => exact ⟨t', rfl⟩
+    | error e => have := (perase_err cexChain cexChain_wf 1 19999999999 sh e h).2; omega
 
 /-! ## non-vacuity: a concrete well-formed point tier and a concrete history -/
 
@@ -722,7 +675,7 @@ theorem exHistory_wf : (prun exP exOps).WF ∧ (prun exP exOps).validate = true 
   ⟨preachable_wf exP exP_wf exOps, preachable_validate exP exP_wf exOps⟩
 
 /-- the hypotheses of the error clause are met too: the erase step of the history acts on a separated tier -/
-example : PErrOk exP (.erase 30 60 true) := fun _ => exP_noclose
+example : PErrOk exP (.erase 30 60 true) := trivial
 
 /-- every step of the history succeeds (a strict run) -/
 def prunStrict (t : PTier Int) : List POp → Except Err (PTier Int)
@@ -744,6 +697,6 @@ def prunStrict (t : PTier Int) : List POp → Except Err (PTier Int)
 #guard (match exP.editTimestamps 50 .error with | .error .OutOfBounds => true | _ => false)
 #guard (match exP.crop 5 5 false with | .error .ArgumentError => true | _ => false)
 #guard (match exP.deleteEntry ⟨41, "b"⟩ with | .error .ValueError => true | _ => false)
-#guard (match cexChain.eraseRegion 1 19999999999 false with | .error .ValueError => true | _ => false)
+#guard (match cexChain.eraseRegion 1 19999999999 false with | .ok t => t.ps.isEmpty | _ => false)
 
 end C05
